@@ -432,6 +432,13 @@ impl Scenario for C13 {
                 b.push(Step::Offer { text: TextRef::Lit { text: ta.clone() }, faults: vec![], reader: *bk, artifact, expect: Some(true), why: "C13:any-33-bytes".into() });
                 b.push(Step::IdRel { reader: *bk, a: TextRef::Lit { text: ta.clone() }, b: TextRef::Lit { text: tc } });
                 b.push(Step::IdRel { reader: *bk, a: TextRef::Lit { text: ta.clone() }, b: TextRef::Lit { text: ta.clone() } });
+                // longer texts whose surplus repeats characters of the text itself (what a decoder that
+                // reads its input in overlapping or re-started blocks would swallow)
+                for back in 1..=8usize {
+                    for n in 1..=back.min(4) {
+                        b.push(Step::Offer { text: TextRef::Lit { text: ta.clone() }, faults: vec![TokFault::TextAppendCopy { back, n }], reader: *bk, artifact, expect: Some(false), why: "C13:id-wrong-length-accepted:surplus characters".into() });
+                    }
+                }
                 for len in [0usize, 1, 2, 31, 32, 34, 35, 48, 64, 66] {
                     let x = crate::prng::Rng::new(b.ev_seed()).bytes(len);
                     b.push(Step::Offer { text: TextRef::Lit { text: format!("k{f}{hdr}{}", b64(&x)) }, faults: vec![], reader: *bk, artifact, expect: Some(false), why: format!("C13:id-wrong-length-accepted:{len} bytes") });
@@ -634,6 +641,56 @@ impl Scenario for C04 {
                 let blob = b.blob_slot();
                 b.push(Step::BlobInject { blob, family: f, wk: WrapKind::Pw, kind: Kind::Local, text: format!("k{f}.local-pw.{}", b64(&data)) });
                 b.push(Step::Unwrap { blob, node, with: pw.clone(), faults: vec![], as_kind: None });
+            }
+        }
+        // sealed-key blobs whose ephemeral public key / RSA ciphertext is degenerate (low-order and
+        // non-canonical Montgomery u-coordinates, the identity, x = 0, x >= p, 0, 1, all-ones), with
+        // random tag and encrypted key: unsealing must fail, not panic
+        {
+            let mut epks: Vec<Vec<u8>> = Vec::new();
+            match f {
+                2 | 4 => {
+                    for h in [
+                        "0000000000000000000000000000000000000000000000000000000000000000",
+                        "0100000000000000000000000000000000000000000000000000000000000000",
+                        "e0eb7a7c3b41b8ae1656e3faf19fc46ada098deb9c32b1fd866205165f49b800",
+                        "5f9c95bca3508c24b1d0b1559c83ef5b04445cc4581c8e86d8224eddd09f1157",
+                        "ecffffffffffffffffffffffffffffffffffffffffffffffffffffffffffff7f",
+                        "edffffffffffffffffffffffffffffffffffffffffffffffffffffffffffff7f",
+                        "eeffffffffffffffffffffffffffffffffffffffffffffffffffffffffffff7f",
+                        "ffffffffffffffffffffffffffffffffffffffffffffffffffffffffffffffff",
+                        "0000000000000000000000000000000000000000000000000000000000000080",
+                        "e0eb7a7c3b41b8ae1656e3faf19fc46ada098deb9c32b1fd866205165f49b880",
+                    ] {
+                        epks.push(hex::decode(h).unwrap());
+                    }
+                }
+                3 => {
+                    let p = crate::curves::p384_p().to_bytes_be();
+                    for prefix in [0u8, 2, 3, 4, 5, 6, 0xff] {
+                        for x in [vec![0u8; 48], vec![0xffu8; 48], p.clone(), { let mut o = vec![0u8; 48]; o[47] = 1; o }] {
+                            let mut e = vec![prefix];
+                            e.extend_from_slice(&x);
+                            epks.push(e);
+                        }
+                    }
+                }
+                _ => {
+                    let mut one = vec![0u8; 512];
+                    one[511] = 1;
+                    epks.extend([vec![0u8; 512], one, vec![0xffu8; 512]]);
+                }
+            }
+            let tl = if f == 1 || f == 3 { 48 } else { 32 };
+            for e in epks {
+                let mut data = crate::prng::Rng::new(b.ev_seed()).bytes(tl);
+                data.extend_from_slice(&e);
+                data.extend(crate::prng::Rng::new(b.ev_seed()).bytes(32));
+                for (node, _) in nodes.iter().enumerate() {
+                    let blob = b.blob_slot();
+                    b.push(Step::BlobInject { blob, family: f, wk: WrapKind::Pke, kind: Kind::Local, text: format!("k{f}.seal.{}", b64(&data)) });
+                    b.push(Step::Unwrap { blob, node, with: SecretRef::Key { slot: fk.pke_secret }, faults: vec![], as_kind: None });
+                }
             }
         }
         // degenerate keys of the C08 catalogue: accepted ones are used
@@ -882,6 +939,12 @@ impl Scenario for C09 {
             for (at, n) in [(0usize, 2usize), (2, hl), (2, hl - 1), (3, hl - 1), (0, 2 + hl), (2, 1), (1, 1), (0, 1)] {
                 offer(&mut b, t, vec![TokFault::TextRemoveRange { at, n }]);
                 offer(&mut b, t, vec![TokFault::TextDupRange { at, n }]);
+            }
+            // surplus characters that repeat a piece of the text's own tail
+            for back in 1..=9usize {
+                for n in 1..=back.min(5) {
+                    offer(&mut b, t, vec![TokFault::TextAppendCopy { back, n }]);
+                }
             }
             // impossible lengths: drop 1..5 trailing characters (one of them leaves len = 1 mod 4)
             for n in 1..=5usize {
